@@ -1097,3 +1097,29 @@ Print Assumptions C05_taffy_engine_example.
 Print Assumptions C05_taffy_layout_pass_hidden_invisible.
 Print Assumptions C05_taffy_layout_passes_hidden_invisible.
 Print Assumptions C05_taffy_layout_passes_example.
+
+(* ---- the TRANSLATED compute_hidden_layout (Gen/EngineGlueGen.v, regenerated from src/compute/mod.rs on every run: cache_clear,
+   set_unrounded_layout(Layout::with_order(0)), then compute_child_layout(child, LayoutInput::HIDDEN) for index in
+   0..child_count -- ALL children) at the node with path p IS `hide` of that node, when the recursive calls are `hide` of the
+   children (the hidden-mode guard of compute_child_layout: `memo`'s first case) ---- *)
+From TV Require Gen.EngineGlueGen Model.EngineGlue Proofs.EngineGlueProofs.
+
+Theorem C05_translated_hidden_layout_is_model :
+  forall (S In Out Lay : Type) (hidden_out : Out) (zero_lay : Lay) (t u : Engine.tree S In Out Lay) (p : list nat),
+    Engine.subtree S In Out Lay t p = Some u ->
+    EngineGlue.eg_hidden_layout S In Out Lay hidden_out zero_lay t p =
+    (Engine.update S In Out Lay t p (Engine.hide S In Out Lay zero_lay), hidden_out).
+Proof. intros. eapply EngineGlueProofs.translated_hidden_layout_is_model; eauto. Qed.
+
+(* non-vacuity, computed: hiding the node at path [1] (cached, laid out, one cached child) of a three-level tree over nat *)
+Example C05_translated_hidden_layout_example :
+  let N := Engine.Node nat nat nat nat in
+  let full := Engine.Build_cache nat nat (Some (0, 5)) [(1, 6)] in
+  let t := N 1 full 7 [N 2 full 8 []; N 3 full 9 [N 4 full 10 []; N 5 full 11 []]] in
+  (exists u, Engine.subtree nat nat nat nat t [1] = Some u) /\
+  EngineGlue.eg_hidden_layout nat nat nat nat 0 0 t [1] =
+  (N 1 full 7 [N 2 full 8 []; N 3 (Engine.cempty nat nat) 0 [N 4 (Engine.cempty nat nat) 0 []; N 5 (Engine.cempty nat nat) 0 []]], 0) /\
+  EngineGlue.eg_hidden_layout nat nat nat nat 0 0 t [1] = (Engine.update nat nat nat nat t [1] (Engine.hide nat nat nat nat 0), 0).
+Proof. split; [eexists; reflexivity|]. vm_compute. split; reflexivity. Qed.
+
+Print Assumptions C05_translated_hidden_layout_is_model.
